@@ -1,6 +1,335 @@
-(** placeholder, being written *)
-Require Import List Arith Bool ZArith Lia.
+(** Property C20 - single-threaded API behaviour matches the reference container model.
+
+    The reference model is the executable specification [LV.Spec.ApiSpec] ([kstep]/[krun] for sets and maps,
+    [qstep]/[qrun] for queues, stacks, deques and priority queues, [segq_step] for SegmentedQueue); [checks/C20.py]
+    runs its extraction and every container variant of harness/C20 on the same operation sequences and compares
+    outputs line by line.  The theorems below pin down what the specification means: each is about ALL
+    configurations, states and operation sequences.  Only statements here; proofs are in [LV.Proofs.ApiSpecLaws]. *)
+
+Require Import List Arith Bool ZArith Lia Permutation.
 Require Import LV.Base.Lin LV.Spec.Specs LV.Spec.ApiSpec LV.Proofs.ApiSpecLaws.
-Theorem C20_placeholder : kstate (mkcfg true false false DNone) nil = nil.
-Proof. exact api_placeholder. Qed.
-Print Assumptions C20_placeholder.
+Import ListNotations.
+Local Open Scope Z_scope.
+
+(** ** update(): (true,true) exactly when it inserted, (true,false) when it updated an existing item,
+    (false,false) when the key was absent and insertion was disallowed.  [upd_op true] is update with a functor,
+    [upd_op false] is upsert / update without functor. *)
+Theorem C20_update_result_law : forall c s functor k v allow,
+  let s' := fst (kstep c s (upd_op functor k v allow)) in
+  let r := ko_res (snd (kstep c s (upd_op functor k v allow))) in
+  (r = KPair true true \/ r = KPair true false \/ r = KPair false false) /\
+  (r = KPair true true <-> mhas k s = false /\ allow = true) /\
+  (r = KPair true false <-> mhas k s = true) /\
+  (r = KPair false false <-> mhas k s = false /\ allow = false) /\
+  (r = KPair true true -> mfind k s' = Some v) /\
+  (r = KPair true false -> mfind k s' = Some v) /\
+  (r = KPair false false -> s' = s) /\
+  (forall k', k' <> k -> mfind k' s' = mfind k' s).
+Proof. exact update_result_law. Qed.
+Print Assumptions C20_update_result_law.
+
+(** the update functor: called iff the operation succeeded, new-item flag = "inserted", sees the stored value *)
+Theorem C20_update_functor_law : forall c s k v allow,
+  let out := snd (kstep c s (KUpdate k v allow)) in
+  (ko_res out = KPair true true -> ko_calls out = [CUpd true k v v]) /\
+  (ko_res out = KPair true false -> exists old, mfind k s = Some old /\ ko_calls out = [CUpd false k old v]) /\
+  (ko_res out = KPair false false -> ko_calls out = []) /\
+  (forall functor, ko_calls (snd (kstep c s (upd_op functor k v allow))) = [] \/ functor = true).
+Proof. exact update_functor_law. Qed.
+Print Assumptions C20_update_functor_law.
+
+Theorem C20_insert_functor_called_iff_inserted : forall c s k v,
+  let out := snd (kstep c s (KInsertF k v)) in
+  let s' := fst (kstep c s (KInsertF k v)) in
+  (ko_calls out = [CIns k v] <-> ko_res out = KBool true) /\
+  (ko_calls out = [] <-> ko_res out = KBool false) /\
+  (ko_res out = KBool true <-> mhas k s = false) /\
+  (ko_res out = KBool true -> mfind k s' = Some v) /\
+  (ko_res out = KBool false -> s' = s) /\
+  ko_calls (snd (kstep c s (KInsert k v))) = [] /\
+  ko_res (snd (kstep c s (KInsert k v))) = ko_res out /\ fst (kstep c s (KInsert k v)) = s'.
+Proof. exact insert_functor_called_iff_inserted. Qed.
+Print Assumptions C20_insert_functor_called_iff_inserted.
+
+Theorem C20_erase_functor_called_iff_erased : forall c s k,
+  let out := snd (kstep c s (KEraseF k)) in
+  let s' := fst (kstep c s (KEraseF k)) in
+  (ko_res out = KBool true <-> mhas k s = true) /\
+  (ko_res out = KBool true -> exists v, mfind k s = Some v /\ ko_calls out = [CErase k v]) /\
+  (ko_res out = KBool false -> ko_calls out = [] /\ s' = s) /\
+  (ko_res out = KBool true \/ ko_res out = KBool false) /\
+  mfind k s' = None /\
+  (forall k', k' <> k -> mfind k' s' = mfind k' s) /\
+  ko_res (snd (kstep c s (KErase k))) = ko_res out /\ fst (kstep c s (KErase k)) = s' /\
+  ko_calls (snd (kstep c s (KErase k))) = [].
+Proof. exact erase_functor_called_iff_erased. Qed.
+Print Assumptions C20_erase_functor_called_iff_erased.
+
+Theorem C20_find_functor_called_iff_found : forall c s k,
+  let out := snd (kstep c s (KFindF k)) in
+  fst (kstep c s (KFindF k)) = s /\
+  (ko_res out = KBool true <-> mhas k s = true) /\
+  (ko_res out = KBool true -> exists v, mfind k s = Some v /\ ko_calls out = [CFind k v]) /\
+  (ko_res out = KBool false -> ko_calls out = []) /\
+  ko_res (snd (kstep c s (KContains k))) = ko_res out /\
+  ko_res (snd (kstep c s (KGet k))) = KItem (match mfind k s with Some v => Some (k, v) | None => None end).
+Proof. exact find_functor_called_iff_found. Qed.
+Print Assumptions C20_find_functor_called_iff_found.
+
+(** ** size() = number of distinct keys present, after any operation sequence: [l] is ANY duplicate-free
+    enumeration of the keys that are present *)
+Theorem C20_size_is_cardinality : forall c ops l,
+  kc_counted c = true ->
+  NoDup l -> (forall k, In k l <-> mfind k (kstate c ops) <> None) ->
+  ko_res (snd (kstep c (kstate c ops) KSize)) = KNat (length l).
+Proof. exact size_is_cardinality. Qed.
+Print Assumptions C20_size_is_cardinality.
+
+Theorem C20_size_uncounted : forall c s, kc_counted c = false -> ko_res (snd (kstep c s KSize)) = KNat 0.
+Proof. exact size_uncounted. Qed.
+Print Assumptions C20_size_uncounted.
+
+Theorem C20_empty_iff_size_zero : forall c s,
+  (kc_counted c = true ->
+     (ko_res (snd (kstep c s KEmpty)) = KBool true <-> ko_res (snd (kstep c s KSize)) = KNat 0)) /\
+  (kc_counted c = true \/ kc_empty_by_size c = false ->
+     (ko_res (snd (kstep c s KEmpty)) = KBool true <-> forall k, mfind k s = None)) /\
+  (kc_counted c = false -> kc_empty_by_size c = true -> ko_res (snd (kstep c s KEmpty)) = KBool true).
+Proof. exact empty_iff_size_zero. Qed.
+Print Assumptions C20_empty_iff_size_zero.
+
+Theorem C20_clear_empties : forall c s,
+  let s' := fst (kstep c s KClear) in
+  s' = [] /\
+  (forall k, ko_res (snd (kstep c s' (KContains k))) = KBool false) /\
+  ko_res (snd (kstep c s' KSize)) = KNat 0 /\
+  ko_res (snd (kstep c s' KEmpty)) = KBool true /\
+  ko_res (snd (kstep c s' KIter)) = KList [] /\
+  ko_res (snd (kstep c s' KExtractMin)) = KItem None /\
+  (forall k, ko_res (snd (kstep c s' (KExtract k))) = KItem None).
+Proof. exact clear_empties. Qed.
+Print Assumptions C20_clear_empties.
+
+(** ** extract_min / extract_max *)
+Theorem C20_extract_min_is_least : forall c s,
+  let out := snd (kstep c s KExtractMin) in
+  let s' := fst (kstep c s KExtractMin) in
+  (ko_res out = KItem None <-> s = []) /\
+  (forall k v, ko_res out = KItem (Some (k, v)) ->
+     mfind k s = Some v /\ (forall k', mfind k' s <> None -> k <= k') /\
+     mfind k s' = None /\ (forall k', k' <> k -> mfind k' s' = mfind k' s)).
+Proof. exact extract_min_is_least. Qed.
+Print Assumptions C20_extract_min_is_least.
+
+Theorem C20_extract_max_is_greatest : forall c s,
+  let out := snd (kstep c s KExtractMax) in
+  let s' := fst (kstep c s KExtractMax) in
+  (ko_res out = KItem None <-> s = []) /\
+  (forall k v, ko_res out = KItem (Some (k, v)) ->
+     mfind k s = Some v /\ (forall k', mfind k' s <> None -> k' <= k) /\
+     mfind k s' = None /\ (forall k', k' <> k -> mfind k' s' = mfind k' s)).
+Proof. exact extract_max_is_greatest. Qed.
+Print Assumptions C20_extract_max_is_greatest.
+
+Theorem C20_extract_min_order : forall c s k1 v1 k2 v2, NoDup (keys s) ->
+  ko_res (snd (kstep c s KExtractMin)) = KItem (Some (k1, v1)) ->
+  ko_res (snd (kstep c (fst (kstep c s KExtractMin)) KExtractMin)) = KItem (Some (k2, v2)) ->
+  k1 < k2.
+Proof. exact extract_min_order. Qed.
+Print Assumptions C20_extract_min_order.
+
+(** ** refinement of the set/map specification to the mathematical one: the contents after a sequence are the
+    fold of the obvious operations on functions Z -> option Z, and no key is present twice *)
+Theorem C20_contents_refine_math : forall c ops,
+  math_chain (fun _ => None) ops (absf (kstate c ops)) /\ NoDup (keys (kstate c ops)).
+Proof. exact contents_refine_math. Qed.
+Print Assumptions C20_contents_refine_math.
+
+Theorem C20_kstep_refines_math : forall c s o, math_post (absf s) o (absf (fst (kstep c s o))).
+Proof. exact kstep_refines_math. Qed.
+Print Assumptions C20_kstep_refines_math.
+
+Theorem C20_kstep_agrees_with_MapSpec : forall c s k v a,
+  fst (kstep c s (KInsert k v)) = fst (map_step s (MInsert k v)) /\
+  ko_res (snd (kstep c s (KInsert k v))) = (match snd (map_step s (MInsert k v)) with RBool b => KBool b | _ => KUnit end) /\
+  fst (kstep c s (KUpsert k v a)) = fst (map_step s (MUpdate k v a)) /\
+  ko_res (snd (kstep c s (KUpsert k v a))) = (match snd (map_step s (MUpdate k v a)) with RPair x y => KPair x y | _ => KUnit end) /\
+  fst (kstep c s (KErase k)) = fst (map_step s (MErase k)) /\
+  ko_res (snd (kstep c s (KErase k))) = (match snd (map_step s (MErase k)) with RBool b => KBool b | _ => KUnit end) /\
+  ko_res (snd (kstep c s (KContains k))) = (match snd (map_step s (MContains k)) with RBool b => KBool b | _ => KUnit end).
+Proof. exact kstep_agrees_with_MapSpec. Qed.
+Print Assumptions C20_kstep_agrees_with_MapSpec.
+
+Theorem C20_iter_lists_contents : forall c s,
+  fst (kstep c s KIter) = s /\
+  exists l, ko_res (snd (kstep c s KIter)) = KList l /\ Permutation l s /\ ksorted l.
+Proof. exact iter_lists_contents. Qed.
+Print Assumptions C20_iter_lists_contents.
+
+(** ** number of disposer calls (intrusive containers) *)
+Theorem C20_disposer_count_law : forall c ops,
+  (kc_disp c = DGc ->
+     let (outs, fin) := krun_case c ops in sum_linked c ops outs = (sum_disp outs + fin)%nat) /\
+  (kc_disp c = DManual -> kc_replace c = false ->
+     let (outs, fin) := krun_case c ops in
+     fin = 0%nat /\ (sum_linked c ops outs = length (kstate c ops) + sum_disp outs + sum_handed ops outs)%nat) /\
+  (kc_disp c = DNone -> let (outs, fin) := krun_case c ops in sum_disp outs = 0%nat /\ fin = 0%nat) /\
+  sum_held (fst (krun_case c ops)) = 0%nat.
+Proof. exact disposer_count_law. Qed.
+Print Assumptions C20_disposer_count_law.
+
+Theorem C20_disposer_per_op : forall c s,
+  kc_disp c = DGc -> NoDup (keys s) ->
+  (forall k, ko_disp (snd (kstep c s (KErase k))) = (if mhas k s then 1 else 0)%nat) /\
+  (forall k, ko_disp (snd (kstep c s (KEraseF k))) = (if mhas k s then 1 else 0)%nat) /\
+  (forall k, ko_disp (snd (kstep c s (KUnlink k))) = (if mhas k s then 1 else 0)%nat) /\
+  (forall k, ko_disp (snd (kstep c s (KUnlinkForeign k))) = 0%nat) /\
+  (forall k, ko_disp (snd (kstep c s (KExtract k))) = (if mhas k s then 1 else 0)%nat /\ ko_held (snd (kstep c s (KExtract k))) = 0%nat) /\
+  (forall k v a, ko_disp (snd (kstep c s (KUpdate k v a))) = (if mhas k s && kc_replace c then 1 else 0)%nat) /\
+  (forall k v, ko_disp (snd (kstep c s (KInsert k v))) = 0%nat) /\
+  ko_disp (snd (kstep c s KClear)) = length s.
+Proof. exact disposer_per_op. Qed.
+Print Assumptions C20_disposer_per_op.
+
+(** ** queues, stacks, deques, priority queues *)
+Theorem C20_fifo_pop_order : forall c ops s, qc_kind c = QFifo ->
+  q_items s ++ qpushed c s ops = qleft c s ops ++ q_items (fst (qrun c s ops)).
+Proof. exact fifo_pop_order. Qed.
+Print Assumptions C20_fifo_pop_order.
+
+Theorem C20_stack_pop_order : forall c s x mid, qc_kind c = QStack -> qc_cap c = None -> balanced mid ->
+  let s1 := fst (qrun c s (APush x :: mid)) in
+  qo_res (snd (qstep c s1 APop)) = QR (RVal (Some x)) /\ q_items (fst (qstep c s1 APop)) = q_items s.
+Proof. exact stack_pop_order. Qed.
+Print Assumptions C20_stack_pop_order.
+
+Theorem C20_pq_pop_is_max : forall c s, qc_kind c = QPrio ->
+  let l := q_items s in let l' := q_items (fst (qstep c s APop)) in
+  (l = [] -> qo_res (snd (qstep c s APop)) = QR (RVal None)) /\
+  (l <> [] -> exists m, qo_res (snd (qstep c s APop)) = QR (RVal (Some m)) /\
+                        In m l /\ (forall x, In x l -> x <= m) /\ Permutation l (m :: l')).
+Proof. exact pq_pop_is_max. Qed.
+Print Assumptions C20_pq_pop_is_max.
+
+Theorem C20_pop_empty : forall c s, q_items s = [] ->
+  qo_res (snd (qstep c s APop)) = QR (RVal None) /\ q_items (fst (qstep c s APop)) = [].
+Proof. exact pop_empty. Qed.
+Print Assumptions C20_pop_empty.
+
+Theorem C20_bounded_push : forall c s x cap, qc_cap c = Some cap -> (length (q_items s) <= cap)%nat ->
+  (qo_res (snd (qstep c s (APush x))) = QR (RBool false) <-> length (q_items s) = cap) /\
+  (qo_res (snd (qstep c s (APush x))) = QR (RBool true) <-> (length (q_items s) < cap)%nat) /\
+  (qo_res (snd (qstep c s (APush x))) = QR (RBool false) -> q_items (fst (qstep c s (APush x))) = q_items s) /\
+  (qo_res (snd (qstep c s (APush x))) = QR (RBool true) ->
+     length (q_items (fst (qstep c s (APush x)))) = S (length (q_items s))).
+Proof. exact bounded_push. Qed.
+Print Assumptions C20_bounded_push.
+
+Theorem C20_bounded_never_exceeds : forall c cap ops s, qc_cap c = Some cap ->
+  (length (q_items s) <= cap)%nat -> (length (q_items (fst (qrun c s ops))) <= cap)%nat.
+Proof. exact bounded_never_exceeds. Qed.
+Print Assumptions C20_bounded_never_exceeds.
+
+Theorem C20_deque_ends : forall c s x, qc_kind c = QDeque -> qc_cap c = None ->
+  (let s1 := fst (qstep c s (APushFront x)) in
+     qo_res (snd (qstep c s1 APop)) = QR (RVal (Some x)) /\ q_items (fst (qstep c s1 APop)) = q_items s) /\
+  (let s1 := fst (qstep c s (APush x)) in
+     qo_res (snd (qstep c s1 APopBack)) = QR (RVal (Some x)) /\ q_items (fst (qstep c s1 APopBack)) = q_items s) /\
+  q_items (fst (qstep c s (APush x))) = fst (fifo_step (q_items s) (Enq x)) /\
+  q_items (fst (qstep c s APop)) = fst (fifo_step (q_items s) Deq) /\
+  q_items (fst (qstep c s (APushFront x))) = fst (stack_step (q_items s) (Push x)) /\
+  q_items (fst (qstep c s APopBack)) = rev (fst (fifo_step (rev (q_items s)) Deq)).
+Proof. exact deque_ends. Qed.
+Print Assumptions C20_deque_ends.
+
+Theorem C20_q_size_empty_clear : forall c s,
+  (qc_counted c = true -> qo_res (snd (qstep c s ASize)) = QNat (length (q_items s))) /\
+  (qc_counted c = false -> qo_res (snd (qstep c s ASize)) = QNat 0) /\
+  (qc_counted c = true \/ qc_empty_by_size c = false ->
+     (qo_res (snd (qstep c s AEmpty)) = QR (RBool true) <-> q_items s = [])) /\
+  (qc_counted c = true ->
+     (qo_res (snd (qstep c s AEmpty)) = QR (RBool true) <-> qo_res (snd (qstep c s ASize)) = QNat 0)) /\
+  q_items (fst (qstep c s AClear)) = [] /\
+  q_items (fst (qstep c s ASize)) = q_items s /\ q_items (fst (qstep c s AEmpty)) = q_items s.
+Proof. exact q_size_empty_clear. Qed.
+Print Assumptions C20_q_size_empty_clear.
+
+Theorem C20_queue_disposer_law : forall c ops,
+  let sf := fst (qrun c qinit ops) in
+  let outs := fst (qrun_case c ops) in let fin := snd (qrun_case c ops) in
+  let npush := length (qpushed c qinit ops) in
+  (qc_disp c = QDLag -> qc_kind c <> QDeque -> (sum_qdisp outs + fin = npush)%nat) /\
+  (qc_disp c = QDClear -> (sum_qdisp outs + fin + qhanded c qinit ops = npush)%nat) /\
+  (qc_disp c = QDManual -> fin = 0%nat /\ (sum_qdisp outs + length (q_items sf) + qhanded c qinit ops = npush)%nat) /\
+  (qc_disp c = QDTotal -> sum_qdisp outs = 0%nat /\ fin = npush) /\
+  (qc_disp c = QDNone -> sum_qdisp outs = 0%nat /\ fin = 0%nat).
+Proof. exact queue_disposer_law. Qed.
+Print Assumptions C20_queue_disposer_law.
+
+Theorem C20_segq_laws : forall q segs,
+  (forall x, snd (segq_step q segs (SPush x)) = SOk /\
+             seg_items (fst (segq_step q segs (SPush x))) = seg_items segs ++ [x]) /\
+  (forall x, snd (segq_step q segs (SPop (Some x))) = SOk ->
+             In x (seg_items segs) /\
+             Permutation (seg_items segs) (x :: seg_items (fst (segq_step q segs (SPop (Some x)))))) /\
+  (snd (segq_step q segs (SPop None)) = SOk ->
+     match seg_head q segs with [] => True | (u, l) :: _ => l = [] end) /\
+  snd (segq_step q segs SSize) = SNat (length (seg_items segs)) /\
+  (snd (segq_step q segs SEmpty) = SBool true <-> seg_items segs = []) /\
+  seg_items (fst (segq_step q segs SClear)) = [].
+Proof. exact segq_laws. Qed.
+Print Assumptions C20_segq_laws.
+
+(** ** Non-vacuity: concrete runs in which the interesting branches do happen *)
+
+Definition cfg_gc : kcfg := mkcfg true false false DGc.
+Definition cfg_repl : kcfg := mkcfg true true true DGc.
+
+(** all three update results occur, the functor log carries the new-item flag and the old value *)
+Example C20_update_nonvacuous :
+  map (fun o => (ko_res o, ko_calls o)) (kouts cfg_gc [KUpdate 5 1 false; KUpdate 5 2 true; KUpdate 5 3 false; KUpsert 5 4 true]) =
+  [(KPair false false, []); (KPair true true, [CUpd true 5 2 2]); (KPair true false, [CUpd false 5 2 3]); (KPair true false, [])].
+Proof. vm_compute. reflexivity. Qed.
+
+(** size counts distinct keys (4 inserts of 3 distinct keys, one erase), extract_min / extract_max come out in order *)
+Example C20_size_extract_nonvacuous :
+  map ko_res (kouts cfg_gc [KInsert 7 1; KInsertF 3 2; KInsert 9 3; KInsert 7 4; KSize; KErase 3; KSize; KExtractMin; KExtractMax; KExtractMin; KEmpty]) =
+  [KBool true; KBool true; KBool true; KBool false; KNat 3; KBool true; KNat 2; KItem (Some (7, 1)); KItem (Some (9, 3)); KItem None; KBool true].
+Proof. vm_compute. reflexivity. Qed.
+
+(** disposer: erase, replaced item, released extract, clear and the destructor; hypotheses of the law hold *)
+Example C20_disposer_nonvacuous :
+  let ops := [KInsert 1 1; KInsert 2 2; KInsert 3 3; KUpdate 1 4 true; KErase 2; KExtract 3; KInsert 5 5; KInsert 6 6; KClear; KInsert 8 8] in
+  map ko_disp (fst (krun_case cfg_repl ops)) = [0; 0; 0; 1; 1; 1; 0; 0; 3; 0]%nat /\
+  snd (krun_case cfg_repl ops) = 1%nat /\
+  sum_linked cfg_repl ops (fst (krun_case cfg_repl ops)) = 7%nat /\ kc_disp cfg_repl = DGc.
+Proof. vm_compute. repeat split. Qed.
+
+(** FIFO / LIFO / priority order / bounded push *)
+Example C20_queue_nonvacuous :
+  map qo_res (fst (qrun_case (mkqcfg QFifo (Some 2%nat) true false QDNone) [APush 1; APush 2; APush 3; APop; APop; APop])) =
+    [QR (RBool true); QR (RBool true); QR (RBool false); QR (RVal (Some 1)); QR (RVal (Some 2)); QR (RVal None)] /\
+  map qo_res (fst (qrun_case (mkqcfg QStack None true false QDNone) [APush 1; APush 2; APop; APush 3; APop; APop; APop])) =
+    [QR (RBool true); QR (RBool true); QR (RVal (Some 2)); QR (RBool true); QR (RVal (Some 3)); QR (RVal (Some 1)); QR (RVal None)] /\
+  map qo_res (fst (qrun_case (mkqcfg QPrio None true false QDNone) [APush 2; APush 5; APush 2; APop; APop; ASize; APop])) =
+    [QR (RBool true); QR (RBool true); QR (RBool true); QR (RVal (Some 5)); QR (RVal (Some 2)); QNat 1; QR (RVal (Some 2))] /\
+  balanced [APush 7; ASize; APop; APush 8; APush 9; APop; APop].
+Proof.
+  vm_compute. repeat split.
+  apply (bal_pair 7 [ASize] [APush 8; APush 9; APop; APop]).
+  - apply bal_obs; [auto | constructor].
+  - apply (bal_pair 8 [APush 9; APop] []); [|constructor]. apply (bal_pair 9 [] []); constructor.
+Qed.
+
+(** MSQueue-family disposer lag: the first dequeue disposes nothing, the destructor disposes the last dummy *)
+Example C20_queue_lag_nonvacuous :
+  let c := mkqcfg QFifo None true false QDLag in
+  map qo_disp (fst (qrun_case c [APush 1; APush 2; APush 3; APop; APop; APush 4])) = [0; 0; 0; 0; 1; 0]%nat /\
+  snd (qrun_case c [APush 1; APush 2; APush 3; APop; APop; APush 4]) = 3%nat.
+Proof. vm_compute. split; reflexivity. Qed.
+
+(** SegmentedQueue, quasi factor 2: items of one segment may leave in either order, not across segments *)
+Example C20_segq_nonvacuous :
+  segq_run_case 2 [SPush 1; SPush 2; SPush 3; SPop (Some 2); SPop (Some 3); SPop (Some 1); SPop (Some 3); SPop None] =
+  [SOk; SOk; SOk; SOk; SReject [1]; SOk; SOk; SOk].
+Proof. vm_compute. reflexivity. Qed.
